@@ -72,6 +72,12 @@ class Prog:
     def calls(self):
         return [(i, s) for i, s in enumerate(self.steps) if s["act"] == "Call"]
 
+    def natural(self):
+        """every name that Python treats as a local of the enclosing function has a class statement in its
+        body (otherwise the renderer would have to add dead code to make the name local)"""
+        return all(any(s["act"] in ("Define", "Redefine") and s["s"] == "F1" and s["n"] == n for s in self.steps)
+                   for n in self.lnames)
+
     def evok(self):
         """the evaluated variant is expressible: Python can evaluate every name when the def runs"""
         c = [s for s in self.steps if s["act"] == "Call"]
@@ -471,7 +477,7 @@ class Judge:
         self.oracle_doubt = []
         self.diffs = []
 
-    def program(self, prog, outs, origin):
+    def program(self, prog, outs, origin, model=True):
         self.stats["programs"] += 1
         raised = {}          # callable -> a forward-reference exception was really raised before
         for i, s in prog.calls():
@@ -485,7 +491,7 @@ class Judge:
             if not s["evok"] and "fwdref" not in want:
                 self.stats["defined_later_resolved"] += 1
             for r in (s["blame"]["str"]["a"], s["blame"]["str"]["b"]):
-                if r:
+                if r and model:
                     self.routes[r] = self.routes.get(r, 0) + 1
             reals = {}
             for fm, res in outs.items():
@@ -502,8 +508,9 @@ class Judge:
                 if fm == "ev":
                     continue
                 got = s["got"][fm]
-                self.stats["real_equals_model_0230" if real == got else "real_differs_from_model_0230"] += 1
-                if real != got and len(self.diffs) < 6:
+                if model:
+                    self.stats["real_equals_model_0230" if real == got else "real_differs_from_model_0230"] += 1
+                if model and real != got and len(self.diffs) < 6:
                     self.diffs.append({"placement": prog.p, "hint": prog.h, "form": fm, "statement": i, "real": real,
                                        "model_0230": got, "allowed": sorted(want), "origin": origin,
                                        "source": render(prog, fm)})
@@ -535,15 +542,20 @@ class Judge:
                    "model_0230": got, "unmodelled": True}
             why = "not explained by the 0.23.0 switches of FwdRef.tla"
         ck = json.dumps(key, sort_keys=True)
+        rank = (not prog.natural(), len(prog.steps), fm != "str")      # prefer natural, short examples
+        count = 1
         if ck in self.first:
             self.first[ck]["count"] += 1
-            return
+            if rank >= self.first[ck]["rank"]:
+                return
+            count = self.first[ck]["count"]
         what = (f"placement {prog.p}, annotation {hint_src(prog.h, prog.p, fm)} ({fm} form), statement {i}: "
                 f"{_fmt_obj(s['obj'])} -> real outcome {real}; C07 allows {sorted(want)} "
                 f"(outcomes of the variants of this call: {reals}). {symptom}. Cause: {why}.")
         case = {"prog": prog.to_json(), "form": fm, "step": i, "origin": origin, "real": real,
                 "allowed": sorted(want), "source": render(prog, fm)}
-        self.first[ck] = {"key": key, "what": what, "case": case, "count": 1, "prog": prog, "form": fm, "step": i}
+        self.first[ck] = {"key": key, "what": what, "case": case, "count": count, "prog": prog, "form": fm, "step": i,
+                          "rank": rank}
 
     def _import_error(self, prog, fm, err, origin):
         if err.startswith("Beartype"):
@@ -553,7 +565,7 @@ class Judge:
                 self.first[ck] = {"key": key, "what": f"placement {prog.p}, {fm} form: the program stops with {err}",
                                   "case": {"prog": prog.to_json(), "form": fm, "step": -1, "origin": origin,
                                            "source": render(prog, fm)},
-                                  "count": 1, "prog": prog, "form": fm, "step": -1}
+                                  "count": 1, "prog": prog, "form": fm, "step": -1, "rank": (False, 0, False)}
         else:
             self.rep.machinery(f"generated program failed for a reason unrelated to beartype ({fm} form): {err}\n"
                                + render(prog, fm))
@@ -579,6 +591,12 @@ class Judge:
                     self.rep.add("batch_dependent")
                     continue
             it["case"]["occurrences"] = it["count"]
+            if not it["prog"].natural():
+                # the only programs showing this deviation make a name local to the enclosing function with a
+                # class statement that never runs (dead code): recorded, not reported
+                self.rep.cov.setdefault("deviations_only_in_dead_code_programs", []).append(
+                    {"key": it["key"], "occurrences": it["count"], "source": it["case"]["source"]})
+                continue
             self.rep.violation(it["key"], it["what"], it["case"])
 
 
@@ -595,32 +613,15 @@ def _fmt_obj(o):
 
 
 # ====================================================================== the check
+VERDICT_INVS = {"VerdictAsEvaluated", "UnresolvableRaises", "UnneededEither"}
 MUTANTS = [  # switch, placements, hints, invariants that may report it
-    ("GlobalFirst", ["closure", "method"], ["N"], {"VerdictAsEvaluated", "UnresolvableRaises", "UnneededEither"}),
-    ("FakeFallback", ["closure"], ["N"], {"VerdictAsEvaluated", "UnresolvableRaises", "UnneededEither"}),
-    ("FakeFallback", ["method", "nmethod"], ["list"], {"VerdictAsEvaluated", "UnresolvableRaises", "UnneededEither"}),
-    ("FrameByCode", ["closure"], ["N"], {"VerdictAsEvaluated", "UnresolvableRaises", "UnneededEither"}),
-    ("SharedProxy", ["closure"], ["list"], {"VerdictAsEvaluated", "UnresolvableRaises", "UnneededEither"}),
+    ("GlobalFirst", ["closure", "method"], ["N"], VERDICT_INVS),
+    ("FakeFallback", ["closure"], ["N"], VERDICT_INVS),
+    ("FakeFallback", ["method", "nmethod"], ["list"], VERDICT_INVS),
+    ("FrameByCode", ["closure"], ["N"], VERDICT_INVS),
+    ("SharedProxy", ["closure"], ["list"], VERDICT_INVS),
     ("CacheFailure", ["modfunc"], ["N"], {"UsableOnceDefined"}),
 ]
-
-
-def _mutants(rep, d):
-    """Every switch alone must be rejected by TLC; the counterexamples are programs."""
-    progs = []
-    for k, (sw, pls, hints, allowed) in enumerate(MUTANTS):
-        cfg = write_file(d, f"mut{k}.cfg", _cfg(pls, hints, 9, 2, 2, {sw: True},
-                                                invariants=[i for i in INVARIANTS if i != "NoFailureCached"]))
-        res = tlc.run_tlc("FwdRef.tla", cfg)
-        rep.tlc(res, f"FwdRef mutant {sw} {pls}")
-        if res.violated not in allowed:
-            rep.machinery(f"spec mutant {sw}=TRUE on {pls}: expected TLC to report one of {sorted(allowed)}, "
-                          f"got {res.violated}: the specification does not constrain this switch")
-        rep.add("spec_mutants_killed")
-        st0 = res.error_trace[0][1]
-        steps = [st["last"] for _, st in res.error_trace[1:]]
-        progs.append((sw, Prog(st0["p"], st0["h"], st0["lnames"], st0["cls"] not in ((), None), steps)))
-    return progs
 
 
 def _coverage(out):
@@ -633,52 +634,43 @@ def _coverage(out):
     return cov
 
 
-def _intended(rep, d, groups, steps, defs, calls):
-    for k, (pls, hints) in enumerate(groups):
-        cfg = write_file(d, f"int{k}.cfg", _cfg(pls, hints, steps, defs, calls))
-        res = tlc.run_tlc("FwdRef.tla", cfg, coverage=True)
-        rep.tlc(res, f"FwdRef intended design {pls} x {hints}")
-        if res.violated:
-            rep.machinery(f"FwdRef.tla with every switch off violates {res.violated} on {pls} x {hints}: the "
-                          f"specification of the intended design is itself inconsistent")
-        need = {"Decorate", "CallAny", "Define"}
-        if any(p in pls for p in ("closure", "cmethod")):
-            need |= {"EnterF", "LeaveF", "EnterF2", "Redefine"}
-        if any(p in pls for p in ("nmethod", "nmethod_cd")):
-            need |= {"EnterC", "EnterD", "LeaveD", "LeaveC"}
-        cov = _coverage(res.output)
-        zero = [a for a in need if cov.get(a, 0) == 0]
-        if zero and set(hints) != {"Self"}:
-            rep.machinery(f"vacuous TLC run on {pls} x {hints}: actions never taken: {zero}")
+def _job_mutant(d, k):
+    sw, pls, hints, allowed = MUTANTS[k]
+    cfg = write_file(d, f"mut{k}.cfg", _cfg(pls, hints, 9, 2, 2, {sw: True},
+                                            invariants=[i for i in INVARIANTS if i != "NoFailureCached"]))
+    return tlc.run_tlc("FwdRef.tla", cfg, workers=2)
 
 
-def _graph_programs(rep, d, label, pls, hints, steps, defs, calls):
+def _job_intended(d, k, pls, hints, steps, defs, calls):
+    cfg = write_file(d, f"int{k}.cfg", _cfg(pls, hints, steps, defs, calls))
+    return tlc.run_tlc("FwdRef.tla", cfg, coverage=True, workers=16)
+
+
+def _job_graph(d, label, pls, hints, steps, defs, calls):
     cfg = write_file(d, f"g_{label}.cfg", _cfg(pls, hints, steps, defs, calls, V0230, invariants=[]))
     dot = os.path.join(d, f"g_{label}")
-    res = tlc.run_tlc("FwdRef.tla", cfg, dump_dot=dot)
-    rep.tlc(res, f"FwdRef 0.23.0 switches, graph {label}")
+    res = tlc.run_tlc("FwdRef.tla", cfg, dump_dot=dot, workers=4)
     progs, nn, ne = programs_from_graph(dot + ".dot")
     os.remove(dot + ".dot")
-    rep.add("graph_nodes", nn)
-    rep.add("graph_edges_replayed", ne)
-    return [p for p in progs if p.calls()]
+    return res, [p for p in progs if p.calls()], nn, ne
 
 
-def _sim_programs(rep, d, label, pls, hints, steps, defs, calls, num, seed):
+def _job_sim(d, label, pls, hints, steps, defs, calls, num, k, seed):
+    seed = seed * 1000 + k
     cfg = write_file(d, f"s_{label}.cfg", _cfg(pls, hints, steps, defs, calls, V0230, invariants=[]))
-    res, behs = tlc.simulate("FwdRef.tla", cfg, num=num, depth=steps + 1, seed=seed)
-    rep.tlc(res, f"FwdRef 0.23.0 switches, simulation {label}")
-    return [p for p in programs_from_sim(behs) if p.calls()]
-
-
-def _dedup(progs):
-    seen, out = set(), []
-    for p in progs:
-        k = p.key()
-        if k not in seen:
-            seen.add(k)
-            out.append(p)
-    return out
+    sd = os.path.join(d, f"sim_{label}")
+    os.makedirs(sd)
+    res = tlc.run_tlc("FwdRef.tla", cfg, workers=1, simulate=f"file={sd}/tr,num={num}", depth=steps + 1, seed=seed)
+    progs = []
+    for fn in sorted(os.listdir(sd)):
+        txt = open(os.path.join(sd, fn)).read()
+        labels = [x for x in re.split(r"STATE_\d+ ==\s*\n", txt)[1:]]
+        labels = [re.split(r"\n\s*\n", lb)[0] for lb in labels]
+        if len(labels) >= 2:
+            pr = _prog_from_labels(labels)
+            if pr.calls():
+                progs.append(pr)
+    return res, progs
 
 
 def run(rep, tier, seed):
@@ -696,41 +688,73 @@ def run(rep, tier, seed):
     ]
     quick = tier == "quick"
     t0 = time.time()
+    class_pl = ["modfunc", "method", "nmethod", "method_cd", "nmethod_cd"]
+    fun_pl = ["closure", "cmethod"]
+    five = ["N", "list", "opt", "dict", "tuple"]
+    if quick:
+        intended = [(class_pl, ALL_HINTS, 7, 2, 2), (fun_pl, five, 7, 2, 2)]
+        graphs = [("cls", class_pl, ["N", "tuple", "Self"], 5, 2, 2), ("fun", fun_pl, ["N", "list"], 6, 2, 2),
+                  ("fun2", ["closure"], ["N", "list"], 7, 2, 1)]
+        sims = [(f"all{k}", ALL_PLACEMENTS, ALL_HINTS, 11, 4, 4, 100, k) for k in range(4)]
+    else:
+        intended = [(class_pl, ALL_HINTS, 9, 3, 3), (fun_pl, five, 9, 3, 2)]
+        graphs = [("cls", class_pl, ALL_HINTS, 6, 2, 2), ("fun", fun_pl, five, 6, 2, 2),
+                  ("fun2", fun_pl, ["N", "list", "tuple"], 8, 2, 1)]
+        sims = [(f"all{k}", ALL_PLACEMENTS, ALL_HINTS, 14, 5, 5, 500, k) for k in range(10)] + \
+               [(f"fun{k}", fun_pl, ALL_HINTS, 14, 5, 5, 500, 100 + k) for k in range(6)] + \
+               [(f"cls{k}", class_pl, ALL_HINTS, 14, 5, 5, 500, 200 + k) for k in range(4)]
     with scratch("c07-") as d:
         judge = Judge(rep)
-        # ---- R1: spec mutants, then the intended design
-        mut = _mutants(rep, d)
-        class_pl = ["modfunc", "method", "nmethod", "method_cd", "nmethod_cd"]
-        fun_pl = ["closure", "cmethod"]
-        if quick:
-            _intended(rep, d, [(class_pl, ALL_HINTS), (fun_pl, ["N", "list", "opt", "dict", "tuple"])], 7, 2, 2)
-        else:
-            _intended(rep, d, [(class_pl, ALL_HINTS)], 9, 3, 3)
-            _intended(rep, d, [(fun_pl, ["N", "list", "opt", "dict", "tuple"])], 9, 3, 2)
-        rep.note(f"R1 done after {time.time() - t0:.0f}s")
-        # ---- R2: programs
-        progs = []
-        origin = []
-        for sw, p in mut:
-            progs.append(p)
-            origin.append(f"TLC counterexample of the switch {sw}")
-        if quick:
-            batches = [("cls", class_pl, ["N", "tuple", "Self"], 5, 2, 2), ("fun", fun_pl, ["N", "list"], 6, 2, 2),
-                       ("fun2", ["closure"], ["N", "list"], 7, 2, 1)]
-            sims = [("all", ALL_PLACEMENTS, ALL_HINTS, 11, 4, 4, 600)]
-        else:
-            batches = [("cls", class_pl, ALL_HINTS, 7, 2, 2), ("fun", fun_pl, ["N", "list", "opt", "dict", "tuple"], 7, 2, 2),
-                       ("fun2", fun_pl, ["N", "list", "tuple"], 8, 2, 1)]
-            sims = [("all", ALL_PLACEMENTS, ALL_HINTS, 14, 5, 5, 6000), ("fun", fun_pl, ALL_HINTS, 14, 5, 5, 4000)]
-        for label, pls, hints, steps, defs, calls in batches:
-            ps = _graph_programs(rep, d, label, pls, hints, steps, defs, calls)
-            progs += ps
-            origin += [f"edge cover of the state graph {label}"] * len(ps)
-            rep.note(f"graph {label}: {len(ps)} programs after {time.time() - t0:.0f}s")
-        for label, pls, hints, steps, defs, calls, num in sims:
-            ps = _sim_programs(rep, d, label, pls, hints, steps, defs, calls, num, seed)
-            progs += ps
-            origin += [f"tlc -simulate {label} seed {seed}"] * len(ps)
+        with concurrent.futures.ThreadPoolExecutor(12) as ex:
+            f_mut = [ex.submit(_job_mutant, d, k) for k in range(len(MUTANTS))]
+            f_graph = [ex.submit(_job_graph, d, *g) for g in graphs]
+            f_sim = [ex.submit(_job_sim, d, *sm, seed) for sm in sims]
+            # ---- R1: the intended design (every switch off) satisfies every invariant
+            for k, (pls, hints, steps, defs, calls) in enumerate(intended):
+                res = _job_intended(d, k, pls, hints, steps, defs, calls)
+                rep.tlc(res, f"FwdRef intended design {pls} x {hints} steps {steps}")
+                if res.violated:
+                    rep.machinery(f"FwdRef.tla with every switch off violates {res.violated} on {pls} x {hints}: "
+                                  f"the specification of the intended design is itself inconsistent")
+                need = {"Decorate", "CallAny", "Define", "Redefine"}
+                if any(p in pls for p in fun_pl):
+                    need |= {"EnterF", "LeaveF", "EnterF2"}
+                if any(p in pls for p in ("nmethod", "nmethod_cd")):
+                    need |= {"EnterC", "EnterD", "LeaveD", "LeaveC"}
+                cov = _coverage(res.output)
+                zero = sorted(a for a in need if cov.get(a, 0) == 0)
+                if zero:
+                    rep.machinery(f"vacuous TLC run on {pls} x {hints}: actions never taken: {zero}")
+            rep.note(f"R1 intended design done after {time.time() - t0:.0f}s")
+            # ---- R1: every switch alone is rejected; the counterexamples are programs
+            mut = []
+            for k, fu in enumerate(f_mut):
+                sw, pls, hints, allowed = MUTANTS[k]
+                res = fu.result()
+                rep.tlc(res, f"FwdRef mutant {sw} {pls}")
+                if res.violated not in allowed:
+                    rep.machinery(f"spec mutant {sw}=TRUE on {pls}: expected TLC to report one of {sorted(allowed)}, "
+                                  f"got {res.violated}: the specification does not constrain this switch")
+                rep.add("spec_mutants_killed")
+                st0 = res.error_trace[0][1]
+                steps = [st["last"] for _, st in res.error_trace[1:]]
+                mut.append((sw, Prog(st0["p"], st0["h"], st0["lnames"], st0["cls"] not in ((), None), steps)))
+            # ---- R2: programs
+            progs, origin = [], []
+            for g, fu in zip(graphs, f_graph):
+                res, ps, nn, ne = fu.result()
+                rep.tlc(res, f"FwdRef 0.23.0 switches, graph {g[0]} {g[1]} x {g[2]} steps {g[3]}")
+                rep.add("graph_nodes", nn)
+                rep.add("graph_edges_replayed", ne)
+                progs += ps
+                origin += [f"edge cover of the state graph {g[0]}"] * len(ps)
+                rep.note(f"graph {g[0]}: {nn} states, {ne} edges, {len(ps)} programs ({time.time() - t0:.0f}s)")
+            for sm, fu in zip(sims, f_sim):
+                res, ps = fu.result()
+                rep.tlc(res, f"FwdRef 0.23.0 switches, simulation {sm[0]} depth {sm[3]}")
+                progs += ps
+                origin += [f"tlc -simulate {sm[0]} seed {seed * 1000 + sm[7]}"] * len(ps)
+                rep.add("simulated_programs", len(ps))
         seen, uprogs, uorigin = set(), [], []
         for p, o in zip(progs, origin):
             k = p.key()
@@ -738,13 +762,16 @@ def run(rep, tier, seed):
                 seen.add(k)
                 uprogs.append(p)
                 uorigin.append(o)
-        rep.note(f"{len(uprogs)} distinct programs to execute after {time.time() - t0:.0f}s")
+        rep.note(f"{len(uprogs)} distinct programs to execute ({time.time() - t0:.0f}s)")
+        mouts = run_programs([p for _, p in mut], d, tagbase="mut")
+        for (sw, p), o in zip(mut, mouts):
+            judge.program(p, o, f"TLC counterexample of the switch {sw} alone", model=False)
         outs = run_programs(uprogs, d)
-        rep.note(f"programs executed after {time.time() - t0:.0f}s")
+        rep.note(f"programs executed ({time.time() - t0:.0f}s)")
         for p, o, org in zip(uprogs, outs, uorigin):
             judge.program(p, o, org)
             rep.add("traces_validated_against_impl")
-        for p in uprogs[len(mut)::max(1, len(uprogs) // 6)]:
+        for p in uprogs[::max(1, len(uprogs) // 6)]:
             rep.sample({"placement": p.p, "hint": p.h, "program": render(p, "str")})
         for k, v in judge.stats.items():
             rep.add(k, v)
